@@ -320,12 +320,42 @@ fn run_one(ri: usize, spec: &RunSpec, prefix: usize, noise: bool, full: bool, po
                 e.set_regex_discard_policy(adblock::regex_manager::RegexManagerDiscardPolicy { cleanup_interval: extreme(6), discard_unused_time: extreme(6) });
                 e.set_regex_discard_policy(adblock::regex_manager::RegexManagerDiscardPolicy { cleanup_interval: extreme(1), discard_unused_time: extreme(6) });
             }
-            retag_and_query(&mut e, &w)
+            let h = retag_and_query(&mut e, &w);
+            // a SECOND shared phase after a tag switch: the tagged rules were freed and allocated
+            // again (use_tags([]) then use_tags([t1, t2])); fresh threads then query the shared
+            // engine, each answer against a fresh engine under those tags asked by one thread
+            e.use_tags(&[]);
+            e.use_tags(&["t1", "t2"]);
+            let mut fresh = build_engine(&w);
+            fresh.use_tags(&["t1", "t2"]);
+            let want: Vec<Vec<String>> = w.queries.iter().map(|qs| qs.iter().take(8).map(|q| answer(&fresh, q).0).collect()).collect();
+            let shared = Arc::new(e);
+            let bad: Mutex<Vec<Value>> = Mutex::new(vec![]);
+            std::thread::scope(|sc| {
+                for (ti, qs) in w.queries.iter().enumerate() {
+                    let (shared, bad, want) = (shared.clone(), &bad, &want);
+                    sc.spawn(move || {
+                        for (qi, q) in qs.iter().take(8).enumerate() {
+                            let a = answer(&shared, q).0;
+                            if a != want[ti][qi] {
+                                let mut b = bad.lock().unwrap();
+                                if b.len() < 3 {
+                                    b.push(json!({"thread": ti, "index": qi, "query": q.describe(), "fresh_engine_one_thread": want[ti][qi], "shared_engine_after_tag_switch": a}));
+                                }
+                            }
+                        }
+                    });
+                }
+            });
+            (h, bad.into_inner().unwrap())
         })).map_err(panic_message),
         Err(_) => Err("engine still shared after the scope ended".to_string()),
     };
     match retag {
-        Ok(h) => res["retag_digest"] = json!(format!("{:016x}", h)),
+        Ok((h, bad)) => {
+            res["retag_digest"] = json!(format!("{:016x}", h));
+            res["after_tag_switch_mismatches"] = json!(bad);
+        }
         Err(m) => res["retag_error"] = json!(m),
     }
     if full {
